@@ -158,8 +158,28 @@ pub fn zero(prog: &Program, t: &Ty) -> V {
     }
 }
 
+/// Go's comparability of a type (spec: Comparison operators): slices and functions are not
+/// comparable, a struct / array is comparable iff all its fields / its element type are.
+fn ty_comparable(t: &Ty, types: &HashMap<String, TypeDef>, seen: &mut Vec<String>) -> bool {
+    match t {
+        Ty::Slice(_) | Ty::Func(..) => false,
+        Ty::Array(_, e) => ty_comparable(e, types, seen),
+        Ty::Named(n) => match types.get(n) {
+            Some(TypeDef::Struct(fs)) => {
+                if seen.contains(n) {
+                    return true;
+                }
+                seen.push(n.clone());
+                fs.iter().all(|(_, ft)| ty_comparable(ft, types, seen))
+            }
+            _ => true,
+        },
+        _ => true,
+    }
+}
+
 /// Go's `==` on two values of identical static type (after interface boxing).
-fn go_eq(a: &V, b: &V) -> Result<bool, PanicKind> {
+fn go_eq(a: &V, b: &V, types: &HashMap<String, TypeDef>) -> Result<bool, PanicKind> {
     Ok(match (a, b) {
         (V::Unit, V::Unit) => true,
         (V::Bool(x), V::Bool(y)) => x == y,
@@ -172,7 +192,7 @@ fn go_eq(a: &V, b: &V) -> Result<bool, PanicKind> {
                 return Ok(false);
             }
             for (x, y) in f1.iter().zip(f2.iter()) {
-                if !go_eq(x, y)? {
+                if !go_eq(x, y, types)? {
                     return Ok(false);
                 }
             }
@@ -180,7 +200,7 @@ fn go_eq(a: &V, b: &V) -> Result<bool, PanicKind> {
         }
         (V::Array(x), V::Array(y)) => {
             for (p, q) in x.iter().zip(y.iter()) {
-                if !go_eq(p, q)? {
+                if !go_eq(p, q, types)? {
                     return Ok(false);
                 }
             }
@@ -199,10 +219,11 @@ fn go_eq(a: &V, b: &V) -> Result<bool, PanicKind> {
                 if p.0 != q.0 {
                     false
                 } else {
-                    if matches!(p.0, Ty::Slice(_) | Ty::Func(..)) {
+                    // identical dynamic types that are not comparable: run-time panic, whatever the values
+                    if !ty_comparable(&p.0, types, &mut Vec::new()) {
                         return Err(PanicKind::Uncomparable);
                     }
-                    go_eq(&p.1, &q.1)?
+                    go_eq(&p.1, &q.1, types)?
                 }
             }
             _ => false,
@@ -367,7 +388,7 @@ impl Interp {
                 let tv = self.eval(tag)?;
                 for (c, body) in cases {
                     let cv = self.eval(c)?;
-                    let eq = go_eq(&tv, &cv).map_err(Stop::Panic)?;
+                    let eq = go_eq(&tv, &cv, &self.prog.types).map_err(Stop::Panic)?;
                     if eq {
                         return Ok(match self.block(body)? {
                             Flow::Break => Flow::Normal,
@@ -589,7 +610,7 @@ impl Interp {
                 }
                 let a = self.eval(l)?;
                 let b = self.eval(r)?;
-                binop(op, a, b)?
+                binop(op, a, b, &self.prog.types)?
             }
             ExprKind::Selector(obj, field) => {
                 let ov = self.eval(obj)?;
@@ -1004,7 +1025,7 @@ fn convert(v: V, t: &Ty) -> R<V> {
     })
 }
 
-fn binop(op: BinOp, a: V, b: V) -> R<V> {
+fn binop(op: BinOp, a: V, b: V, types: &HashMap<String, TypeDef>) -> R<V> {
     use BinOp::*;
     Ok(match (a, b) {
         (V::Int(k, x), V::Int(_, y)) => match op {
@@ -1072,8 +1093,8 @@ fn binop(op: BinOp, a: V, b: V) -> R<V> {
             _ => return unsup("string op"),
         },
         (a, b) => match op {
-            Eq => V::Bool(go_eq(&a, &b).map_err(Stop::Panic)?),
-            Ne => V::Bool(!go_eq(&a, &b).map_err(Stop::Panic)?),
+            Eq => V::Bool(go_eq(&a, &b, types).map_err(Stop::Panic)?),
+            Ne => V::Bool(!go_eq(&a, &b, types).map_err(Stop::Panic)?),
             _ => return unsup("binary operator on unsupported operands"),
         },
     })
